@@ -330,10 +330,14 @@ class MnemonicHooks(Hooks):
 
     def call(self, it, callee, args, kwargs, node):
         from ..absint import BoundMethod, Builtin, ModRef
-        if isinstance(callee, BoundMethod) and callee.name == 'join' and isinstance(callee.recv, str) and args \
-                and isinstance(args[0], (list, tuple)) and all(isinstance(x, SL) for x in args[0]):
-            k = len(callee.recv) * max(0, len(args[0]) - 1)
-            return SL(sum(x.lo for x in args[0]) + k, sum(x.hi for x in args[0]) + k, 'bits')
+        if isinstance(callee, BoundMethod) and callee.name == 'join' and isinstance(callee.recv, str) and args:
+            from ..absint import LazyGen
+            parts = list(it.iterate(args[0], node)) if isinstance(args[0], (list, tuple, LazyGen)) else None  # list, map(...) or a generator expression
+            if parts is not None and all(isinstance(x, SL) for x in parts):
+                k = len(callee.recv) * max(0, len(parts) - 1)
+                return SL(sum(x.lo for x in parts) + k, sum(x.hi for x in parts) + k, 'bits')
+            if parts is not None:
+                args = [parts]
         if isinstance(callee, App) and callee.op == 'attr':
             recv, name = callee.args
             if isinstance(recv, SL):
